@@ -18,7 +18,7 @@ def run(ctx):
         # a failing in-process sequence (bounded search), cached per run
         if "r" not in mon_result:
             try:
-                mon_result["r"] = ctx.monitor("m_purity", "search", 26, ctx.seed)
+                mon_result["r"] = ctx.monitor("m_purity", "search", 70, ctx.seed)
             except Exception as e:
                 mon_result["r"] = {"violation": None, "error": str(e)}
         return mon_result["r"]
